@@ -34,6 +34,7 @@ func runC10(c *Ctx) {
 	runWsHandlerModeClose(c)
 	runWsListenerQueue(c)
 	runInprocRendezvous(c)
+	runInprocPipes(c)
 	runWsAcceptCloseRace(c)
 	defer func() { postCloseOps = false }()
 	n := 12
